@@ -82,6 +82,21 @@ class C02(Check):
             t = c.rule
             if c.rule.startswith("R1") and "inode 7" in c.detail:
                 t += "(resize_inode)"
+            if c.rule == "R2.block_bitmap":
+                # blocks that libext2fs marks again in memory after loading the bitmaps (bitmaps and inode tables of
+                # BLOCK_UNINIT groups, which flex_bg puts into other groups): e2fsck never sees the on-disk bits
+                try:
+                    blks = [int(x) for x in re.findall(r"\+(\d+)", c.detail)]
+                    meta = set()
+                    for g in range(fs.group_count):
+                        if fs.group_flags(g) & 2:
+                            gd = fs.group_desc(g)
+                            meta.update([gd["bg_block_bitmap"], gd["bg_inode_bitmap"]])
+                            meta.update(range(gd["bg_inode_table"], gd["bg_inode_table"] + fs.itable_blocks))
+                    if blks and all(b in meta for b in blks) and "-" not in c.detail.split("):", 1)[-1].replace("- marked", ""):
+                        t += "(uninit_group_meta)"
+                except Exception:
+                    pass
             if c.rule == "R4.i_blocks":
                 m = re.match(r"inode (\d+):", c.detail)
                 try:
